@@ -128,6 +128,7 @@ func (e *linkAddrEntry) changeState(ns entryState) {
 	// Notify whoever is waiting on address resolution when transitioning
 	// out of 'incomplete'.
 	if e.s == incomplete {
+		verifAssertWakersInOrder(e)
 		for w := range e.wakers {
 			w.Assert()
 		}
@@ -140,10 +141,12 @@ func (e *linkAddrEntry) changeState(ns entryState) {
 }
 
 func (e *linkAddrEntry) addWaker(w *sleep.Waker) {
+	verifNoteWaker(e, w, true)
 	e.wakers[w] = struct{}{}
 }
 
 func (e *linkAddrEntry) removeWaker(w *sleep.Waker) {
+	verifNoteWaker(e, w, false)
 	delete(e.wakers, w)
 }
 
